@@ -470,5 +470,30 @@ def r8_defval(chk):
     chk.ob('C05.R8', 'genObjectType/defval-plumbing', ok, where(mod, got), 'genDefVal(defval, objname=name) expected')
 
 
+SYNTAX_FAMILY = ('Syntax', 'ObjectSyntax', 'SimpleSyntax', 'ApplicationSyntax', 'sequenceSyntax', 'sequenceObjectSyntax',
+                 'sequenceSimpleSyntax', 'sequenceApplicationSyntax', 'anySubType', 'integerSubType',
+                 'octetStringSubType', 'ranges', 'range', 'value', 'enumSpec', 'enumItems', 'enumItem', 'enumNumber',
+                 'NamedBits', 'NamedBit', 'DefValPart', 'Value', 'valueofObjectSyntax', 'valueofSimpleSyntax',
+                 'BitsValue', 'BitNames', 'typeDeclarationRHS', 'typeDeclaration', 'conceptualTable', 'row', 'entryType',
+                 'sequenceItems', 'sequenceItem')
+
+
+def r9_syntax_productions(chk):
+    """every part of a SYNTAX / DEFVAL construct reaches the tree in every dialect (C02.R1 restricted to the syntax
+    productions) and overriding dialect functions agree with the base ones (C17.R2)"""
+    from vt.runner import Check
+    from rules.C02 import r1_nothing_dropped
+    from rules.C17 import r2_shared_terms
+    chk.doc('C05.R9', 'no grammar action of the SYNTAX/DEFVAL family drops, duplicates or reorders a value-carrying '
+                      'part (all three dialects), and dialect overrides compute the same value as the base action')
+    tmp = Check(chk.prop, chk.tier, chk.model, chk.repo)
+    r1_nothing_dropped(tmp, only_lhs=set(SYNTAX_FAMILY))
+    r2_shared_terms(tmp)
+    for o in tmp.obligations:
+        if o.rule == 'C02.R1' or (o.rule == 'C17.R2' and any(x in o.key for x in ('Syntax', 'enum', 'Index'))):
+            chk.ob('C05.R9', o.key, o.ok, o.where, o.detail)
+    chk.floor('C05.R9', 40, 'syntax productions')
+
+
 RULES = [r1_number_classifier, r2_value_alternatives, r3_literal_conversion, r4_ranges, r5_enum_bits,
-         r7_base_type_walk, r8_defval]
+         r7_base_type_walk, r8_defval, r9_syntax_productions]
